@@ -383,6 +383,10 @@ class SymReal(numbers.Real):
             return NotImplemented
         if self.const is not None and o.const is not None and self.nan is None and o.nan is None:
             return SymReal.lit(self.const + o.const)
+        if o.const is not None and o.const == 0 and o.nan is None:
+            return self
+        if self.const is not None and self.const == 0 and self.nan is None:
+            return o
         return self._mk(o, self.t + o.t, False)
 
     def __radd__(self, o):
@@ -401,6 +405,8 @@ class SymReal(numbers.Real):
             return NotImplemented
         if self.const is not None and o.const is not None and self.nan is None and o.nan is None:
             return SymReal.lit(self.const - o.const)
+        if o.const is not None and o.const == 0 and o.nan is None:
+            return self
         return self._mk(o, self.t - o.t, False)
 
     def __rsub__(self, o):
